@@ -184,9 +184,26 @@ def model_search(chk):
 MANIFEST = {
     "level_claimed": {
         "category": "proof",
-        "text": "filled in below",
+        "text": ("Partial. Coq theorem C01_determinism: for EVERY history of custom-module messages (sudo edits, EVM state commits, "
+                 "oracle end-blocks, precompile registration/dispatch) and ANY two schedules assigning an arbitrary permutation to "
+                 "every execution of every map-range statement, the modelled final state and all results are equal (hence every "
+                 "function of them, C01_app_hash_deterministic) - given the mechanism flags (ToPb sorts, sortedDirties/SortedKeys/"
+                 "ensureOrder sort, oracle tally goes through omap). The flags are read off facts regenerated from /repo on every run "
+                 "(go/types inventory of every `for range <map>`, every set.ToSlice use, every time.Now/rand/go site) and "
+                 "C01_current_tree_deterministic is re-checked; every consensus-scope site must match a hand-reviewed table line "
+                 "(shape + callees) whose justification class has a proved order-independence lemma, so a new or changed site "
+                 "breaks an obligation even when execution happens to agree. Refutation theorems show the sudo sort and the dirties "
+                 "sort are necessary. The real chain is tied by a replica differential (3 in-process + 1 separate-process replica, "
+                 "mixed-module block histories through ABCI, byte comparison of app hash / tx results / validator updates) and by "
+                 "sub-model correspondence (sudo, omap, SortedKeys, ABI selectors, TotalRewardWeight) under two schedules."),
         "design_ref": "DESIGN.md §5 C01",
     },
-    "level_note": "",
-    "technique": "",
+    "level_note": ("The theorems are about the schedule-parameterised model of the map-ranging sites, not about Go: goroutine timing, "
+                   "wall clock and memory layout are only inventoried (generated facts) and exhibited (replicas, one in another "
+                   "process). Trusted: Coq kernel + vm_compute; the go/packages fact generator and its path-based consensus/tooling "
+                   "scope; the hand table coq/C01/SiteClasses.v (classes JLogOnly/JDebug/JViaUses are argued, not proved); the Go "
+                   "driver's digests and order-preserving ids; cosmos-sdk/IAVL/geth/wasm executed, not modelled. c_tally_via_omap, "
+                   "c_remove_via_omap, c_storage_sorted are sufficient but not necessary in the model. devgas, IBC, gov not driven."),
+    "technique": ("Coq proofs of schedule independence (permutation/sort, commuting folds, unique match, omap invariant by induction) "
+                  "over generated site facts + replica differential on ABCI traces + sub-model correspondence"),
 }
